@@ -62,6 +62,10 @@ func (m *PubackMessage) Decode(src []byte) (int, error) {
 	}
 
 	//this.packetId = binary.BigEndian.Uint16(src[total:])
+	if m.remlen != 2 {
+		return total, fmt.Errorf("puback/Decode: Invalid remaining length. Expecting %d, got %d", 2, m.remlen)
+	}
+
 	m.packetID = src[total : total+2]
 	total += 2
 
